@@ -749,6 +749,103 @@ theorem stepCA_enc_ret (s' : CA) (r : Option Val)
     · simp [hL] at h
 
 end step
+/-- the slot-by-slot downward copy equals the simultaneous one when `dst ≤ src` -/
+theorem copyLoop_spec (dst src : Nat) (hds : dst ≤ src) (k : Nat) :
+    ∀ (i : Nat) (m : List Val), src + i + k ≤ m.length →
+      ∃ m', copyLoop dst src k i m = .ok m' ∧ m'.length = m.length ∧
+        ∀ j : Nat, m'[j]? = if dst + i ≤ j ∧ j < dst + i + k then m[src + (j - dst)]? else m[j]? := by
+  induction k with
+  | zero =>
+    intro i m _
+    refine ⟨m, rfl, rfl, ?_⟩
+    intro j
+    rw [if_neg (by omega)]
+  | succ k ih =>
+    intro i m hlen
+    have h1 : src + i < m.length := by omega
+    have h2 : dst + i < m.length := by omega
+    obtain ⟨m', hm', hl', hg'⟩ := ih (i + 1) (m.set (dst + i) m[src + i]) (by simp; omega)
+    refine ⟨m', ?_, by simpa using hl', ?_⟩
+    · simp only [copyLoop, List.getElem?_eq_getElem h1, h2, if_true]
+      exact hm'
+    · intro j
+      rw [hg' j]
+      by_cases hj : dst + (i + 1) ≤ j ∧ j < dst + (i + 1) + k
+      · rw [if_pos hj, if_pos (by omega), List.getElem?_set_ne (by omega)]
+      · rw [if_neg hj]
+        by_cases he : j = dst + i
+        · subst he
+          rw [if_pos (by omega), List.getElem?_set_self h2]
+          have : src + (dst + i - dst) = src + i := by omega
+          rw [this, List.getElem?_eq_getElem h1]
+        · rw [if_neg (by omega), List.getElem?_set_ne (by omega)]
+
+section step
+variable (cfg : Cfg) (b : Int) (j : Junk) (c : C)
+
+theorem stepCA_enc_tcall (n : Nat) (s' : CA) (r : Option Val)
+    (h : stepCA cfg (enc b j c) (.tcall n) = .ok (s', r)) :
+    ∃ b' j' c', s' = enc b' j' c' ∧ step c (.tcall n) = .ok (c', r) ∧ capOf c j ≤ capOf c' j' := by
+  simp only [stepCA] at h
+  have e2 : (enc b j c).fp = b + VS * ((c.fp : Nat) : Int) := rfl
+  rw [slot?_sp_sub] at h
+  rw [e2, slot?_enc_nat] at h
+  by_cases hfp : c.fp < c.stack.length
+  · by_cases hn : n + 1 ≤ c.stack.length
+    · simp only [hfp, hn, if_true] at h
+      by_cases hle : c.fp ≤ c.stack.length - (n + 1)
+      · simp only [hle, if_true] at h
+        have hcl := closeLoopA_enc b j c c.fp c.openL c.heap
+        have e3 : (enc b j c).heap = c.heap.map (encUv b) := rfl
+        have e4 : (enc b j c).openL = c.openL := rfl
+        rw [e3, e4, hcl] at h
+        cases hc : closeLoop c.stack c.fp c.heap c.openL with
+        | error e => simp [hc, Except.map] at h
+        | ok p =>
+          obtain ⟨h', l'⟩ := p
+          simp only [hc, Except.map] at h
+          have hmem : (enc b j c).mem = c.stack ++ j.g := rfl
+          obtain ⟨m', hm', hl', hg'⟩ := copyLoop_spec c.fp (c.stack.length - (n + 1)) hle (n + 1) 0
+            (c.stack ++ j.g) (by simp; omega)
+          rw [hmem, hm'] at h
+          simp only at h
+          cases h
+          have hstep : step c (.tcall n) = .ok ({ c with
+              stack := c.stack.take c.fp ++ c.stack.drop (c.stack.length - (n + 1)), heap := h', openL := l' },
+              none) := by
+            simp only [step]
+            rw [if_pos (by omega), hc]
+          refine ⟨b, ⟨m'.drop (c.fp + (n + 1)), j.stale⟩, _, ?_, hstep, ?_⟩
+          · simp only [enc]
+            have hnew : (c.stack.take c.fp ++ c.stack.drop (c.stack.length - (n + 1))).length = c.fp + (n + 1) := by
+              simp; omega
+            congr 1
+            · -- the array
+              have : m'.take (c.fp + (n + 1)) = c.stack.take c.fp ++ c.stack.drop (c.stack.length - (n + 1)) := by
+                apply List.ext_getElem?
+                intro t
+                rw [List.getElem?_take]
+                by_cases ht : t < c.fp + (n + 1)
+                · rw [if_pos ht, hg' t]
+                  by_cases ht2 : t < c.fp
+                  · rw [if_neg (by omega), List.getElem?_append_left (by omega),
+                        List.getElem?_append_left (by simp; omega), List.getElem?_take, if_pos ht2]
+                  · rw [if_pos (by omega), List.getElem?_append_left (by omega),
+                        List.getElem?_append_right (by simp; omega), List.getElem?_drop]
+                    congr 1
+                    simp; omega
+                · rw [if_neg ht]
+                  symm
+                  rw [List.getElem?_eq_none_iff, hnew]; omega
+              rw [← this, List.take_append_drop]
+            · rw [hnew]; unfold VS; push_cast; omega
+          · simp only [capOf, List.length_append, List.length_drop, List.length_take]
+            rw [hl']; simp; omega
+      · simp [hle] at h
+    · simp [hfp, hn] at h
+  · simp [hfp] at h
+
+end step
 /-- one operation of the addressed machine on a representation is the operation of the index
 machine on what it represents -/
 theorem stepCA_enc (cfg : Cfg) (hal : ∀ s, Disjoint s.base s.mem.length (cfg.alloc s))
@@ -768,6 +865,7 @@ theorem stepCA_enc (cfg : Cfg) (hal : ∀ s, Disjoint s.base s.mem.length (cfg.a
   | fset k v => exact stepCA_enc_fset cfg b j c k v s' r h
   | callc n ks => exact stepCA_enc_callc cfg b j c n ks s' r h
   | callm n => exact stepCA_enc_callm cfg b j c hal hi hb n s' r h
+  | tcall n => exact stepCA_enc_tcall cfg b j c n s' r h
   | ret => exact stepCA_enc_ret cfg b j c s' r h
   | grow => exact stepCA_enc_grow cfg b j c hal hi hb s' r h
 
